@@ -649,12 +649,133 @@ def dispatchers(world):
     return out
 
 
+# ------------------------------------------------------------------ coordinate-ramp plans (perlin / generate_terrain)
+class _Subst(ast.NodeTransformer):
+    def __init__(self, mapping):
+        self.mapping = mapping
+
+    def visit_Name(self, node):
+        if node.id in self.mapping:
+            return ast.parse(self.mapping[node.id], mode='eval').body
+        return node
+
+
+def canon(e, mapping):
+    import copy
+    return ast.unparse(_Subst(mapping).visit(copy.deepcopy(e)))
+
+
+def shape_names(fd):
+    """names bound by `h, w = <array>.shape` -> 'rows' / 'cols'"""
+    out = {}
+    for n in ast.walk(fd):
+        if isinstance(n, ast.Assign) and len(n.targets) == 1 and isinstance(n.targets[0], ast.Tuple) and \
+                len(n.targets[0].elts) == 2 and isinstance(n.value, ast.Attribute) and n.value.attr == 'shape':
+            a, b = n.targets[0].elts
+            if isinstance(a, ast.Name) and isinstance(b, ast.Name):
+                out[a.id] = 'rows'
+                out[b.id] = 'cols'
+    return out
+
+
+def coord_ramp(fd, expr, mapping, fname):
+    """a coordinate argument of the per-cell kernel -> the linspace ramp feeding it, or None when the argument is not
+    derived from a meshgrid.  Fail-closed once a meshgrid is involved."""
+    assign = single_assignments(fd)
+    mult = '1'
+    e = expr
+    if isinstance(e, ast.BinOp) and isinstance(e.op, ast.Mult):
+        mult = canon(e.right, mapping)
+        e = e.left
+    if not isinstance(e, ast.Name) or e.id not in assign:
+        return None
+    v = assign[e.id]
+    if not (isinstance(v, tuple) and v[0] == 'unpack' and isinstance(v[1], ast.Call) and
+            isinstance(v[1].func, ast.Attribute) and v[1].func.attr == 'meshgrid'):
+        return None
+    mg = v[1]
+    if len(mg.args) != 2 or mg.keywords:
+        fail('meshgrid with other than two positional ramps (indexing= etc.) is not modelled', mg, fname)
+    idx = v[2]
+    lname = mg.args[idx]
+    if not isinstance(lname, ast.Name) or lname.id not in assign or isinstance(assign[lname.id], tuple):
+        fail('meshgrid argument %r is not a single-assignment ramp' % ast.unparse(lname), mg, fname)
+    ls = assign[lname.id]
+    if not (isinstance(ls, ast.Call) and isinstance(ls.func, ast.Attribute) and ls.func.attr == 'linspace'):
+        fail('ramp %s is not built by linspace' % lname.id, ls, fname)
+    if len(ls.args) != 3:
+        fail('linspace with other than (start, stop, num) positional arguments', ls, fname)
+    endpoint = True
+    dtype = ''
+    for k in ls.keywords:
+        if k.arg == 'endpoint' and isinstance(k.value, ast.Constant) and isinstance(k.value.value, bool):
+            endpoint = k.value.value
+        elif k.arg == 'dtype':
+            dtype = ast.unparse(k.value)
+        else:
+            fail('linspace keyword %s= is not modelled' % k.arg, ls, fname)
+    m2 = dict(mapping)
+    m2.update(shape_names(fd))
+    # default indexing='xy': output 0 varies along the columns (axis 1) with the first ramp, output 1 along the rows
+    return dict(axis=1 - idx, ramp=lname.id, start=canon(ls.args[0], m2), stop=canon(ls.args[1], m2),
+                num=canon(ls.args[2], m2), endpoint=endpoint, dtype=dtype, mult=mult,
+                module=ast.unparse(ls.func.value), mesh_module=ast.unparse(mg.func.value))
+
+
+def numpy_coord_ramps(world, kernel_key, n_bound, n_coord, disp_reach, dask_site):
+    """the NumPy-path call of the same per-cell kernel with coordinate arguments: -> (site, [ramp, ...])"""
+    found = []
+    for df, nr, dr in disp_reach:
+        if dask_site not in dr:
+            continue
+        for (f2, name2) in sorted(nr):
+            fd2 = world.mods[f2].funcs[name2]
+            if is_gpu_func(fd2) or (f2, name2) in dr and any(
+                    isinstance(x.func, ast.Attribute) and x.func.attr in ('map_blocks', 'map_overlap') for x in calls_in(fd2)):
+                continue
+            for c in calls_in(fd2):
+                if isinstance(c.func, ast.Name):
+                    t = world.resolve(f2, c.func.id)
+                    if t and (t[0], t[1].name) == kernel_key and len(c.args) == n_bound + n_coord and not c.keywords:
+                        # parameter names of this function as seen from its (single) caller on the NumPy path
+                        mapping = {}
+                        callers = []
+                        for (f3, name3) in sorted(nr):
+                            fd3 = world.mods[f3].funcs[name3]
+                            for c3 in calls_in(fd3):
+                                if isinstance(c3.func, ast.Name) and world.resolve(f3, c3.func.id) == (f2, fd2):
+                                    callers.append((fd3, c3))
+                        if len(callers) > 1:
+                            fail('%s has several call sites on the NumPy path' % name2, fd2, f2)
+                        if callers:
+                            fd3, c3 = callers[0]
+                            params2 = [a.arg for a in fd2.args.args]
+                            for i, a in enumerate(c3.args):
+                                if i < len(params2):
+                                    mapping[params2[i]] = '(%s)' % ast.unparse(a) if not isinstance(a, ast.Name) else a.id
+                            for k in c3.keywords:
+                                if k.arg:
+                                    mapping[k.arg] = '(%s)' % ast.unparse(k.value) if not isinstance(k.value, ast.Name) else k.value.id
+                        ramps = [coord_ramp(fd2, a, mapping, f2) for a in c.args[n_bound:]]
+                        if any(r is None for r in ramps):
+                            fail('NumPy-path call of %s does not take meshgrid coordinates' % kernel_key[1], c, f2)
+                        found.append(('%s:%s' % (f2, name2), ramps))
+    uniq = []
+    for x in found:
+        if x not in uniq:
+            uniq.append(x)
+    if len(uniq) != 1:
+        fail('expected exactly one NumPy-path call of %s with coordinate ramps, found %d' % (kernel_key[1], len(uniq)))
+    return uniq[0]
+
+
 def collect(repo):
     world = World(repo)
     disp = dispatchers(world)
     disp_reach = [(f, reach(world, f, nn), reach(world, f, dn)) for f, nn, dn in disp]
     plans = []
     reductions = []
+    coords = []
     for fname in FILES:
         m = world.mods[fname]
         for fd in m.funcs.values():
@@ -712,9 +833,21 @@ def collect(repo):
                                   depth=depth, boundary=boundary, radius='(%s, %s)' % (ka.radius_g[0], ka.radius_g[1]),
                                   block_reductions=ka.block_reductions, same=same, line=c.lineno,
                                   block_params=block_params, taskname=taskname))
+                # coordinate-ramp plan: the block arguments are the outputs of a meshgrid of linspace ramps
+                if f.attr == 'map_blocks' and module_form:
+                    ramps = [coord_ramp(fd, a, {}, fname) for a in c.args[1:]]
+                    if any(r is not None for r in ramps):
+                        if any(r is None for r in ramps) or len(ramps) != 2:
+                            fail('map_blocks mixes meshgrid coordinates with other block arguments', c, fname)
+                        nsite, nramps = numpy_coord_ramps(world, (f2, kfd.name), bound_pos, len(ramps), disp_reach,
+                                                          (fname, fd.name))
+                        if len(nramps) != 2:
+                            fail('NumPy-path kernel call does not take two coordinates', c, fname)
+                        coords.append(dict(site='%s:%s' % (fname, fd.name), numpy_site=nsite, dask=ramps, numpy=nramps,
+                                           params=block_params))
     if not plans:
         fail('no Dask plan found at all in the anchored files')
-    return plans, reductions
+    return plans, reductions, coords
 
 
 def coq_str(s):
@@ -722,7 +855,7 @@ def coq_str(s):
 
 
 def generate(repo):
-    plans, reductions = collect(repo)
+    plans, reductions, coords = collect(repo)
     L = []
     L.append('(* GENERATED by harness/props/c01_facts.py from %s/xrspatial on every run of ./check C01 — do not edit.' % '<repo>')
     L.append('   One record per Dask plan (map_overlap / map_blocks call outside the CUDA/CuPy code). *)')
@@ -761,6 +894,29 @@ def generate(repo):
     L.append(';\n'.join('  (%s%%string, %s%%string, %s%%string)' % (coq_str('%s:%s' % (f, fn)), coq_str(op), coq_str(arg)) for f, fn, op, arg in reductions))
     L.append('].')
     L.append('')
+    L.append('(* coordinate-ramp plans: a per-cell kernel k(x, y) mapped over the blocks of meshgrid(linx, liny); for each of the')
+    L.append('   two coordinate arguments the linspace that feeds it, on the Dask path and on the NumPy path. Expressions are')
+    L.append('   the source text with `h, w = a.shape` renamed rows/cols and callee parameters renamed to the caller\'s names *)')
+    L.append('Record ramp := mkRamp {')
+    L.append('  r_axis : Z;            (* the raster axis the coordinate varies along: 0 rows, 1 columns (meshgrid, indexing xy) *)')
+    L.append('  r_start : string; r_stop : string; r_num : string; r_endpoint : bool; r_dtype : string;')
+    L.append('  r_mult : string        (* factor applied to the coordinate before the kernel *)')
+    L.append('}.')
+    L.append('Record coordplan := mkCoord {')
+    L.append('  cp_site : string; cp_numpy_site : string;')
+    L.append('  cp_dask_x : ramp; cp_dask_y : ramp;      (* first / second coordinate argument of the kernel, Dask path *)')
+    L.append('  cp_numpy_x : ramp; cp_numpy_y : ramp     (* the same on the NumPy path *)')
+    L.append('}.')
+
+    def ramp_g(r):
+        return '(mkRamp %d %s %s %s %s %s %s)' % (r['axis'], coq_str(r['start']), coq_str(r['stop']), coq_str(r['num']),
+                                                 'true' if r['endpoint'] else 'false', coq_str(r['dtype']), coq_str(r['mult']))
+    L.append('Definition coord_plans : list coordplan := [')
+    L.append(';\n'.join('  mkCoord %s %s\n    %s\n    %s\n    %s\n    %s' % (
+        coq_str(cp['site']), coq_str(cp['numpy_site']), ramp_g(cp['dask'][0]), ramp_g(cp['dask'][1]),
+        ramp_g(cp['numpy'][0]), ramp_g(cp['numpy'][1])) for cp in coords))
+    L.append('].')
+    L.append('')
     L.append('Definition n_plans : Z := %d.' % len(plans))
     return '\n'.join(L) + '\n', plans, reductions
 
@@ -787,7 +943,9 @@ RULE = ('for each of the 27 public functions the property lists (slope aspect cu
         'covers different fractions of the extent in x and y; perlin with unequal (x, y) freq and seed 0. A second '
         'stream builds 2-3 lazy results of a parametrised function on the SAME Dask rasters with different parameter '
         'values (e.g. reclassify with the same bins and different new_values) and computes them in ONE dask.compute. '
-        'Oracle = the same call on the NumPy-backed raster: result must be a dask Array before compute and after '
+        'Correspondence extras: hillshade with the sun at the zenith vs the gradient model (|diff| <= 3e-6); perlin / '
+        'generate_terrain with the noise kernel replaced by the x- resp. y-coordinate vs the ramp model, whole and blockwise '
+        '(|diff| <= 3e-5 x scale). Oracle = the same call on the NumPy-backed raster: result must be a dask Array before compute and after '
         'compute equal shape/dtype/bits (NaN==NaN) for the same-kernel functions; stated tolerances: hotspots may '
         'differ only where |z| is within 1e-4 of a confidence threshold (global mean/std reduced per block), perlin '
         '|diff| <= 2e-6 and generate_terrain |diff| <= 2e-6*zfactor or a water-threshold (0.3) flip within that '
@@ -803,7 +961,10 @@ TRUSTED = [
     'LocalNaN is proved for the model kernels (stencil with NaN frame, convolution with clamped loops, focal apply, '
     'per-cell) over abstract arithmetic whose + and * absorb NaN; that IEEE float32/float64 arithmetic and libm '
     'atan/atan2/sqrt absorb NaN is assumed; the executable instances use exact integers with NaN (xv)',
-    'np.nanmean/nansum/nanmin/nanmax/np.gradient and the vectorised trig of hillshade are NumPy primitives (not modelled)',
+    'np.gradient (spacing 1, edge_order 1) is transcribed as grad1d in Model.v and checked against hillshade() with the sun '
+    'at the zenith on every run; np.nanmean/nansum/nanmin/nanmax and the vectorised trig of hillshade are NumPy primitives',
+    'np.linspace / da.linspace / meshgrid(indexing xy) are transcribed as ramp / block_starts / coord_whole / coord_blocks; '
+    'checked on every run by replacing the noise kernel with a coordinate projection (probe) on both backends',
 ]
 ASSUMPTIONS = [
     'NumPy-backed and Dask-on-NumPy-backed rasters only (no CuPy); H, W >= 1; kernels odd and no larger than the raster '
@@ -814,31 +975,35 @@ ASSUMPTIONS = [
     'pure function of its padded block)',
 ]
 PARTIAL = [
-    'hillshade: that np.gradient + the NaN frame is a function of the NaN-extended 3x3 window is NOT proved in Coq '
-    '(np.gradient is a NumPy primitive; the translator records its radius as (1, 1)); oracle only',
     'global reductions: proved that the block cells are a permutation of the raster cells and that any '
     'associative-commutative reduction (flat or per-block-then-combined) is chunking independent — this is exact for '
     'min/max (true_color, equal_interval, perlin, terrain) and for the sum at the exact instance only; float32/float64 '
     'summation (hotspots nanmean/nanstd) is not associative, so there the property holds "to float rounding" and is '
     'checked by the oracle with the stated threshold tolerance, not by a theorem',
+    'perlin / generate_terrain coordinate ramps: chunked = whole is proved in exact arithmetic (any structure where + is '
+    'associative and i*step distributes: Z, Q, R); in float32 da.linspace\'s running block start differs from np.linspace '
+    'by rounding, so the implementation is compared with an absolute tolerance (2e-6 x scale, water-threshold flips '
+    'allowed), not bit for bit; the NumPy path also normalises in the template dtype',
     'the `schedules` quantifier: no model of the scheduler; independence is by construction (pure block tasks) and by the '
     'multi-threaded oracle runs (synchronous, threads x 1/4/16)',
-    'slope/aspect/hillshade formulas with libm are not executed by the model (that is C08); the model executes '
-    'convolution, curvature (cellsize 1), focal apply sum/max/min and focal mean (1 pass) on integer data with NaN; '
-    'per-cell kernels (classify, spectral indices) are compared by the oracle only (their cell formulas are C12/C13)',
-    'perlin / generate_terrain: compared with an absolute tolerance (2e-6 x scale) because the NumPy path normalises in the '
-    'template dtype and da.linspace coordinates may differ from np.linspace by an ulp; not bit-identical',
+    'the per-cell formulas themselves are not C01\'s subject: slope/aspect with libm (C08), classify (C12), spectral '
+    'indices (C13), the Perlin noise function; the model executes convolution, curvature (cellsize 1), focal apply '
+    'sum/max/min, focal mean (1 pass), the hillshade gradient stage (sun at zenith) and the coordinate ramps',
 ]
 LEVEL_TEXT = ('Proved in Coq for all raster sizes, all chunkings (list positive summing to H resp. W), all halo depths '
               'and kernel radii: map_overlap / map_blocks / iterated map_overlap (focal mean passes) of any LocalNaN kernel '
               'equals the whole-raster kernel cell for cell; the source-shaped kernels (NaN-framed stencils of slope/aspect/'
               'curvature, clamped-loop convolution of any kr x kc, focal apply with any reducer, clipped 3x3 nanmean, '
-              'per-cell) are LocalNaN; block cells are a permutation of raster cells so associative-commutative global '
-              'reductions do not depend on the chunking; and, over the plan table regenerated from the source on every '
-              'run, every halo depth >= kernel radius in (rows, cols) order for every kernel shape, boundary = NaN, no '
-              'block-level reduction inside a mapped kernel, same kernel on both backends, global reductions at plan level. '
-              'Correspondence/oracle only: hillshade locality, float summation order (tolerances in RULE), schedulers, '
-              'dtype handling, and that Dask implements the modelled overlap/trim/concatenate semantics.')
+              'hillshade = np.gradient with one-sided edges + NaN frame, per-cell) are LocalNaN; block cells are a '
+              'permutation of raster cells so associative-commutative global reductions do not depend on the chunking; the '
+              'chunks of da.linspace are the slices of the whole linspace and map_blocks of any per-cell function over the '
+              'chunked coordinate meshgrid equals the whole evaluation (perlin, generate_terrain; exact arithmetic). Over '
+              'the tables regenerated from the source on every run: every halo depth >= kernel radius in (rows, cols) '
+              'order for every kernel shape, boundary = NaN, no block-level reduction inside a mapped kernel, same kernel '
+              'on both backends, no argument-blind layer name, global reductions at plan level, and each coordinate ramp '
+              'fed from the same range / length / endpoint rule as on the NumPy path (x along columns, y along rows). '
+              'Correspondence/oracle only: float summation order and float32 ramp rounding (tolerances in RULE), '
+              'schedulers, dtype handling, and that Dask implements the modelled overlap/trim/concatenate/linspace semantics.')
 LEVEL_NOTE = ('trusted: Dask\'s overlap/trim/concatenate semantics as transcribed in Model.v (checked against real Dask '
               'output each run), the ast facts translator, NaN-absorption of IEEE arithmetic/libm, NumPy primitives '
               '(nanmean, gradient, vectorised trig); no Coq axioms')
@@ -1277,7 +1442,7 @@ def grid_tokens(g):
 
 def model_eligible(case):
     fn = case['fn']
-    if fn not in ('convolution_2d', 'curvature', 'apply', 'mean'):
+    if fn not in ('convolution_2d', 'curvature', 'apply', 'mean', 'hillshade'):
         return False
     vals = [v for row in case['data'] for v in row]
     if any(isinstance(v, float) and (math.isinf(v) or (not math.isnan(v) and v != int(v))) for v in vals):
@@ -1290,6 +1455,9 @@ def model_eligible(case):
         return case['func'] in ('_calc_sum', '_calc_max', '_calc_min')
     if fn == 'mean':
         return case['passes'] == 1
+    if fn == 'hillshade':
+        # sun at the zenith: the shading reduces to (1/sqrt(1+|grad|^2)+1)/2, a function of the model's 4*|grad|^2
+        return case['angle_altitude'] == 90
     return False
 
 
@@ -1313,6 +1481,10 @@ def model_lines(case):
         dy, dx = plan_depth('focal.py:_apply_dask_numpy', len(k), len(k[0]))
         op = {'_calc_sum': 'apply0', '_calc_max': 'apply1', '_calc_min': 'apply2'}[case['func']]
         return ['%s %s %s %s' % (op, grid_tokens(k), grid_tokens(data), tail(dy, dx))]
+    if fn == 'hillshade':
+        dy, dx = plan_depth('hillshade.py:_run_dask_numpy', 3, 3)
+        doubled = [[v if (isinstance(v, float) and math.isnan(v)) else 2 * v for v in row] for row in data]
+        return ['hill 0 0 %s %s' % (grid_tokens(doubled), tail(dy, dx))]
     if fn == 'mean':
         dy, dx = plan_depth('focal.py:_mean_dask_numpy', 3, 3)
         return ['mean0 0 0 %s %s' % (grid_tokens(data), tail(dy, dx)), 'mean1 0 0 %s %s' % (grid_tokens(data), tail(dy, dx))]
@@ -1358,6 +1530,23 @@ def check_model(ctx, pending):
             whole, chunked = div(ws, wc), div(cs_, cc)
         else:
             whole, chunked = parse_model(mo[0])
+        if case['fn'] == 'hillshade':
+            # model value G = 4*|gradient|^2 (run on 2*data); hillshade at altitude 90 = (1/sqrt(1+G/4)+1)/2 in float32
+            bad = None
+            for name, impl, mod in (('NumPy', rn, whole), ('Dask', rd, chunked)):
+                flat = [float(v) for v in np.asarray(impl).astype('float64').ravel()]
+                for i, (a, m) in enumerate(zip(flat, mod)):
+                    e = float('nan') if isinstance(m, float) else (1.0 / math.sqrt(1.0 + m / 4.0) + 1.0) / 2.0
+                    if not ((math.isnan(a) and math.isnan(e)) or abs(a - e) <= 3e-6) or len(flat) != len(mod):
+                        bad = (name, i, a, e)
+                        break
+                if bad:
+                    break
+            if bad:
+                ctx.violation('correspondence', 'hillshade: %s backend gives %r, the %s gradient model predicts %r at flat index %d '
+                              '(chunks %s)' % (bad[0], bad[2], 'whole-raster' if bad[0] == 'NumPy' else 'chunked', bad[3], bad[1],
+                                               case['chunks']), dict(case, flat_index=bad[1], impl=bad[2], model=bad[3], backend=bad[0]))
+            continue
         for name, impl, mod in (('NumPy', rn, whole), ('Dask', rd, chunked)):
             flat = [float(v) for v in np.asarray(impl).astype('float64').ravel()]
             if len(flat) != len(mod):
@@ -1370,6 +1559,144 @@ def check_model(ctx, pending):
                     case['fn'], name, flat[i], 'whole-raster' if name == 'NumPy' else 'chunked', mod[i], i, case['chunks']),
                     dict(case, flat_index=i, impl=flat[i], model=str(mod[i]), backend=name))
                 break
+
+
+# ------------------------------------------------------------------ coordinate probes (perlin / generate_terrain)
+class CoordProbe:
+    """replaces the per-cell noise kernel `_perlin(p, x, y)` by the projection on one coordinate, so that the public
+    result exposes which ramp feeds which axis (the plan modelled by coord_blocks / coord_whole)"""
+
+    def __init__(self, which):
+        self.which = which
+
+    def __enter__(self):
+        import importlib
+        pm = importlib.import_module('xrspatial.perlin')
+        tm = importlib.import_module('xrspatial.terrain')
+        self.mods = [pm, tm]
+        self.orig = [m._perlin for m in self.mods]
+        which = self.which
+
+        def probe(p, x, y):
+            return np.asarray(x if which == 'x' else y).astype('float64')
+        for m in self.mods:
+            m._perlin = probe
+        return self
+
+    def __exit__(self, *a):
+        for m, o in zip(self.mods, self.orig):
+            m._perlin = o
+
+
+def ramp_numerators(start, stop, n):
+    """integer ramp  N_i = A + i*S  with  linspace(start, stop, n, endpoint=False)[i] = N_i / D"""
+    from fractions import Fraction
+    a = Fraction(start)
+    st = (Fraction(stop) - a) / n
+    D = a.denominator * st.denominator // math.gcd(a.denominator, st.denominator)
+    return int(a * D), int(st * D), D
+
+
+def probe_expected(case, which, packed):
+    """expected public result from the model's packed coordinate raster (x*1000003 + y numerators)"""
+    from fractions import Fraction
+    fn = case['fn']
+    H, W = case['H'], case['W']
+    D = case['_D'][0 if which == 'x' else 1]
+    vals = [Fraction((v // 1000003) if which == 'x' else (v % 1000003), D) for v in packed]
+    if fn == 'generate_terrain':
+        vals = [v ** 3 for v in vals]        # 16 layers: sum_i (c*2^i)/2^i = 16 c ; /1.97 ; **3 ; then normalised
+    lo, hi = min(vals), max(vals)
+    out = []
+    for v in vals:
+        if hi == lo:
+            out.append(float('nan'))
+            continue
+        t = (v - lo) / (hi - lo)
+        if fn == 'generate_terrain':
+            if abs(float(t) - 0.3) < 1e-4:
+                out.append(None)                # too close to the water threshold to predict
+                continue
+            t = Fraction(0) if t < Fraction(3, 10) else t * Fraction(case['zfactor'])
+        out.append(float(t))
+    return out
+
+
+def scaled_ranges(case):
+    from fractions import Fraction
+    if case['fn'] == 'perlin':
+        return (Fraction(0), Fraction(case['freq'][0])), (Fraction(0), Fraction(case['freq'][1]))
+    xr_ = case.get('x_range') or [0, 500]
+    yr_ = case.get('y_range') or [0, 500]
+    fe = case.get('full_extent') or [xr_[0], yr_[0], xr_[1], yr_[1]]
+    sc = lambda v, lo, hi: (Fraction(v) - lo) / (Fraction(hi) - lo)
+    return (sc(xr_[0], fe[0], fe[2]), sc(xr_[1], fe[0], fe[2])), (sc(yr_[0], fe[1], fe[3]), sc(yr_[1], fe[1], fe[3]))
+
+
+def run_probes(ctx, cases):
+    """model ramp (whole / blockwise) vs the coordinates the NumPy / Dask backends really feed to the kernel"""
+    if ctx.model is None:
+        return
+    for case in cases:
+        (xa, xb), (ya, yb) = scaled_ranges(case)
+        ax, stx, Dx = ramp_numerators(xa, xb, case['W'])
+        ay, sty, Dy = ramp_numerators(ya, yb, case['H'])
+        case['_D'] = [Dx, Dy]
+        cy, cx = case['chunks']
+        line = 'ramp %d %d %d %d %d %s %d %s' % (ax, stx, ay, sty, len(cy), ' '.join(map(str, cy)), len(cx), ' '.join(map(str, cx)))
+        out = ctx.model.run([line])[0]
+        pub = {k: v for k, v in case.items() if not k.startswith('_')}
+        if out.startswith('ERR'):
+            ctx.violation('correspondence', 'ramp model returned %s' % out[:100], pub)
+            continue
+        whole, blocks = [[int(t) for t in part.split()] for part in out.split('|')]
+        tol = 3e-5 * (abs(case['zfactor']) if case['fn'] == 'generate_terrain' else 1.0)
+        for which in ('x', 'y'):
+            with CoordProbe(which):
+                rn, rd, isd = run_both(case)
+            ctx.traces += 1
+            ctx.count('probe/%s-%s' % (case['fn'], which))
+            if isinstance(rn, Exception) or isinstance(rd, Exception):
+                ctx.violation('correspondence', '%s coordinate probe raised: numpy %r dask %r' % (case['fn'], rn, rd), pub)
+                break
+            bad = None
+            for name, impl, packed in (('NumPy', rn, whole), ('Dask', rd, blocks)):
+                exp = probe_expected(case, which, packed)
+                flat = [float(v) for v in np.asarray(impl).astype('float64').ravel()]
+                if len(flat) != len(exp):
+                    bad = (name, -1, len(flat), len(exp))
+                    break
+                for i, (a, e) in enumerate(zip(flat, exp)):
+                    if e is None:
+                        continue
+                    if not ((math.isnan(a) and math.isnan(e)) or abs(a - e) <= tol):
+                        bad = (name, i, a, e)
+                        break
+                if bad:
+                    break
+            if bad:
+                ctx.violation('correspondence', '%s: with the kernel replaced by the %s-coordinate, the %s backend gives %r where the '
+                              'ramp model (%s) predicts %r at flat index %d — the %s ramp is not linspace(%s, %s, %d) along %s' % (
+                                  case['fn'], which, bad[0], bad[2], 'whole linspace' if bad[0] == 'NumPy' else 'blockwise da.linspace',
+                                  bad[3], bad[1], which, float(xa if which == 'x' else ya), float(xb if which == 'x' else yb),
+                                  case['W'] if which == 'x' else case['H'], 'columns' if which == 'x' else 'rows'),
+                              dict(pub, probe=which, backend=bad[0], flat_index=bad[1]))
+                break
+        case.pop('_D', None)
+
+
+def probe_cases(rng, quick):
+    out = []
+    for i in range(2 if quick else 10):
+        c = gen_case(rng, 'perlin', rng.randint(2, 9), rng.randint(2, 9))
+        c['dtype'] = 'float64'
+        out.append(c)
+    for i in range(1 if quick else 6):
+        c = gen_case(rng, 'generate_terrain', rng.randint(2, 7), rng.randint(2, 7))
+        c['dtype'] = 'float64'
+        terrain_params(rng, c, asym=True)
+        out.append(c)
+    return out
 
 
 # ------------------------------------------------------------------ several lazy results computed together
@@ -1565,12 +1892,14 @@ def run(ctx, heavy=False):
                 v.pop('bins', None)
             explore_together(ctx, c)
     # 2. model-eligible cases (integer data, integer kernels) so that the correspondence has enough traces
-    n_model = 40 if quick else 600
+    n_model = 45 if quick else 600
     for i in range(n_model):
         if ctx.elapsed() > budget:
             break
-        fn = ['convolution_2d', 'curvature', 'apply', 'mean'][i % 4]
-        c = gen_case(rng, fn, rng.randint(1, 8), rng.randint(1, 8))
+        fn = ['convolution_2d', 'curvature', 'apply', 'mean', 'hillshade'][i % 5]
+        c = gen_case(rng, fn, rng.randint(2 if fn == 'hillshade' else 1, 8), rng.randint(2 if fn == 'hillshade' else 1, 8))
+        if fn == 'hillshade':
+            c['angle_altitude'] = 90
         c['dtype'] = rng.choice(['int16', 'int32', 'float32', 'float64', 'uint8'])
         c['data'] = [[float('nan') if (c['dtype'] in FLT_DT and rng.random() < 0.12) else float(rng.randint(0 if c['dtype'] == 'uint8' else -5, 20))
                       for _ in range(c['W'])] for _ in range(c['H'])]
@@ -1605,6 +1934,7 @@ def run(ctx, heavy=False):
             len(ex_fns), 'complete' if done_all else 'cut by the time budget'))
     ctx.exhaustive = False
     check_model(ctx, pending)
+    run_probes(ctx, probe_cases(rng, quick))
 
 
 def search(ctx):
